@@ -54,11 +54,12 @@ theorem PolWf.wf1 {p : Pol} (h : PolWf p) : PolWf1 p := fun hist cur n _ hn => h
 
 /-- window invariant, valid in every state: the buffer is the part of the input that ends at
 the cursor of the source; `r.byte` is the input offset of buffer offset `pos0`.
-`G` = "the policy never refuses" (a proposition the invariant carries along). -/
+`G` = "the environment is ideal": the policy never refuses, no read and no seek of the source
+fails (a proposition the invariant carries along; with `G := False` nothing is assumed). -/
 structure Win (inp : List UInt8) (G : Prop) (r : Reader) : Prop where
   inp_eq : r.br.src.inp = inp
   cur_le : r.br.src.cursor ≤ inp.length
-  nofail : NoFail r.br.src.script
+  nofail : G → NoFail r.br.src.script
   polwf : PolWf1 r.pol
   polg : G → PolGrows r.pol
   cap3 : 3 ≤ r.br.cap
@@ -66,7 +67,7 @@ structure Win (inp : List UInt8) (G : Prop) (r : Reader) : Prop where
   len_cur : r.br.buf.length ≤ r.br.src.cursor
   full : inp.drop (r.br.src.cursor - r.br.buf.length) = r.br.buf ++ inp.drop r.br.src.cursor
   byte_pos : r.byte + r.br.buf.length = r.br.src.cursor + r.bp.pos0
-  nosf : r.br.src.seekFails = []
+  nosf : G → r.br.src.seekFails = []
 
 /-- … and the current group starts inside the buffer (or at its end) -/
 structure Base (inp : List UInt8) (G : Prop) (r : Reader) : Prop where
@@ -75,7 +76,6 @@ structure Base (inp : List UInt8) (G : Prop) (r : Reader) : Prop where
 
 theorem Base.inp_eq {inp G r} (h : Base inp G r) : r.br.src.inp = inp := h.toWin.inp_eq
 theorem Base.cur_le {inp G r} (h : Base inp G r) : r.br.src.cursor ≤ inp.length := h.toWin.cur_le
-theorem Base.nofail {inp G r} (h : Base inp G r) : NoFail r.br.src.script := h.toWin.nofail
 theorem Base.cap3 {inp G r} (h : Base inp G r) : 3 ≤ r.br.cap := h.toWin.cap3
 theorem Base.len_le {inp G r} (h : Base inp G r) : r.br.buf.length ≤ r.br.cap := h.toWin.len_le
 
@@ -106,9 +106,9 @@ def IpOk (r : Reader) : Prop := ∀ ip, r.incompletePos = some ip → Scan r.br.
 /-- reader states between API calls, with the items S prescribes for what lies ahead -/
 def Good (inp : List UInt8) (G : Prop) (r : Reader) (items : List FqItem) : Prop :=
   match r.state with
-  | .new => Win inp G r ∧ r.br.buf = [] ∧ r.br.src.cursor = 0 ∧ r.bp.pos0 = 0 ∧
+  | .new => Win inp G r ∧ (G → r.br.buf = []) ∧ r.bp.pos0 = 0 ∧
       r.byte = 0 ∧ r.line = 1 ∧ r.incompletePos = none ∧ items = itemsAt inp 0 1
-  | .finished => Win inp G r ∧ Eof inp r ∧ items = []
+  | .finished => Win inp G r ∧ items = []
   | .positioned => Base inp G r ∧ Eof inp r ∧ IpOk r ∧ items = itemsAt inp r.byte r.line
   | .parsing => Base inp G r ∧ Eof inp r ∧ r.incompletePos = none ∧
       r.bp.pos0 ≤ r.bp.pos1 + 1 ∧ r.bp.pos1 + 1 ≤ r.br.buf.length ∧
@@ -116,7 +116,14 @@ def Good (inp : List UInt8) (G : Prop) (r : Reader) (items : List FqItem) : Prop
 
 /-- a reader that has finished (it can only be revived by a seek) -/
 def Fin (inp : List UInt8) (G : Prop) (r : Reader) : Prop :=
-  r.state = .finished ∧ Win inp G r ∧ Eof inp r
+  r.state = .finished ∧ Win inp G r
+
+/-- errors that come from the environment, not from the input: a refusing policy, a failing
+read -/
+def EnvErr : Err → Prop
+  | .bufferLimit => True
+  | .io _ => True
+  | _ => False
 
 /-- the reader (in state `st`, or finished at the end of the input) shows the record `x` of S;
 `its'` are the items after it -/
@@ -140,7 +147,7 @@ def Found (inp : List UInt8) (G : Prop) (st : State) (its : List FqItem)
   (x.2 = .ok true ∧ ∃ rec its', its = .record rec :: its' ∧ Shown inp G st x.1 rec its') ∨
   (x.2 = .ok false ∧ its = [] ∧ Fin inp G x.1) ∨
   (∃ e b l, x.2 = .err (specErr e) ∧ its = [.err e b l] ∧ Fin inp G x.1) ∨
-  (x.2 = .err .bufferLimit ∧ ¬ G ∧ Fin inp G x.1)
+  (∃ e, x.2 = .err e ∧ EnvErr e ∧ ¬ G ∧ Fin inp G x.1)
 
 theorem Win.set_bp {inp G r} (h : Win inp G r) (bp' : BufPos)
     (ip' : Option RecordPos) (hp : bp'.pos0 = r.bp.pos0) :
@@ -282,7 +289,7 @@ theorem complete_found (inp : List UInt8) (G : Prop) (r : Reader) (hb : Base inp
   · rw [hi, hv]
     exact Or.inl ⟨rfl, x, its', rfl, hs⟩
   · rw [hi, hv]
-    exact Or.inr (Or.inr (Or.inl ⟨e, b, l, rfl, rfl, rfl, hb.toWin.set_state _, he⟩))
+    exact Or.inr (Or.inr (Or.inl ⟨e, b, l, rfl, rfl, rfl, hb.toWin.set_state _⟩))
 
 /-! ## end of input -/
 
@@ -346,7 +353,7 @@ theorem eofq_found (inp : List UInt8) (G : Prop) (st : State) (r : Reader) (hb :
     rw [hb.win, hcur, List.drop_length, splitLF_nl_some [] a, splitLF_nl_some [] b,
       splitLF_nl_some [] c, List.append_nil, splitLF_nl_none d, hq, e1, e2]
     rfl
-  have hfin : Fin inp G r' := ⟨e5, hw', he'⟩
+  have hfin : Fin inp G r' := ⟨e5, hw'⟩
   unfold itemsAt
   rw [hsplit, fqGo_three, ← e3, ← e4, fqGroup_eof]
   generalize fqGroup false (hP r'.br.buf r'.bp) (sP r'.br.buf r'.bp) (pP r'.br.buf r'.bp)
@@ -368,7 +375,7 @@ theorem eofq_found (inp : List UInt8) (G : Prop) (st : State) (r : Reader) (hb :
   | err e b l =>
     obtain ⟨v1, v2, v3⟩ := hv
     simp only [checkEndQ, v1]
-    exact Or.inr (Or.inr (Or.inl ⟨e, b, l, rfl, rfl, rfl, hw'.set_state _, he'⟩))
+    exact Or.inr (Or.inr (Or.inl ⟨e, b, l, rfl, rfl, rfl, hw'.set_state _⟩))
 
 theorem checkEnd_few (r : Reader) (ip : RecordPos) (hne : ip ≠ .qual)
     (h0 : r.bp.pos0 ≤ r.br.buf.length) (ep : ErrPos)
@@ -381,12 +388,12 @@ theorem checkEnd_few (r : Reader) (ip : RecordPos) (hne : ip ≠ .qual)
 
 /-- fewer than three complete lines -/
 theorem eof_few_found (inp : List UInt8) (G : Prop) (st : State) (r : Reader) (hb : Base inp G r)
-    (he : Eof inp r) (hcur : r.br.src.cursor = inp.length) (hst : r.state = .finished)
+    (_he : Eof inp r) (hcur : r.br.src.cursor = inp.length) (hst : r.state = .finished)
     (ip : RecordPos) (hne : ip ≠ .qual) (hsc : Scan r.br.buf r.bp ip) :
     Found inp G st (itemsAt inp r.byte r.line) (checkEnd r ip) := by
   have hwin : inp.drop r.byte = r.br.buf.drop r.bp.pos0 := by
     rw [hb.win, hcur, List.drop_length, List.append_nil]
-  have hfin : Fin inp G r := ⟨hst, hb.toWin, he⟩
+  have hfin : Fin inp G r := ⟨hst, hb.toWin⟩
   -- the pieces and the error position in each case
   have key : ∃ ps ep, splitLF (r.br.buf.drop r.bp.pos0) = ps ∧ ps.length ≤ 3 ∧
       getErrorPos r ip.ord (decide (ip.ord > RecordPos.head.ord)) = some ep ∧
